@@ -81,7 +81,7 @@ def gen(rng, ctx):
         cands = nl["wires"] + nl["outputs"] + nl["inputs"]
         m = {}
         for w in rng.sample(cands, min(len(cands), rng.randint(1, 3))):
-            nn = rng.choice(["tie0", "tie1", "tie_0", "tie_1", "tie0_0", "tie0_1", "tie0_2", "tie1_1", "tie1_3", "n_input", "x_output", "hotwire", "reg_input", "in_output"])
+            nn = rng.choice(["tie0", "tie1", "tie_0", "tie_1", "tie0_0", "tie0_1", "tie0_2", "tie1_1", "tie1_3", "n_input", "x_output", "hotwire", "reg_input", "in_output", "n_endmodule", "endmodule_1", "xendmodulex", "b_endmodule"])
             if nn not in m.values() and nn not in cands:
                 m[w] = nn
         nl = N.rename_nets(nl, m)
@@ -199,6 +199,8 @@ def check(case, ctx):
         ctx.violation("fast_parser_raised", f"fast parser raised {cf!r} where the full parser succeeds\n{getattr(cf, '_tb', '')[-500:]}{tail}")
         return
     nf, ns = Net.of(cf), Net.of(cs)
+    if re.search(r"endmodule\w|[\w$]endmodule", text):
+        ctx.count("identifiers_containing_endmodule")
     if "1'b" in text:
         ctx.count("with_constants")
     if re.search(r"\(\s*\)", text):
@@ -260,5 +262,5 @@ def check(case, ctx):
 
 
 def gates(counters, table, tier):
-    need = ["no_primary_inputs", "input_is_output", "nets_named_like_constants", "src:ast", "src:writer", "src:lib", "with_constants", "unconnected_pins", "with_blackboxes", "graphs_identical", "functions_compared", "lib:c17", "lib:s27", "fast_via_from_file", "blackboxes_as:tuple", "blackboxes_as:set", "after_unrelated_behavioural_parse", "full_parser_with_warnings"]
+    need = ["no_primary_inputs", "input_is_output", "nets_named_like_constants", "src:ast", "src:writer", "src:lib", "with_constants", "unconnected_pins", "with_blackboxes", "graphs_identical", "functions_compared", "lib:c17", "lib:s27", "fast_via_from_file", "blackboxes_as:tuple", "blackboxes_as:set", "after_unrelated_behavioural_parse", "full_parser_with_warnings", "identifiers_containing_endmodule"]
     return [f"{k} seen {counters.get(k, 0)} times" for k in need if counters.get(k, 0) < 2]
